@@ -4,7 +4,7 @@ from __future__ import annotations
 import capture
 
 ID = "C04"
-THEOREMS = ["rewrite_depends_on_free_names", "bound_names_untouched", "frozen", "nontransportable_refused", "hrun_queries_prefix"]
+THEOREMS = ["rewriteCaptured_preserves", "rewriteCaptured_lambda", "rewriteCaptured_sem_both", "rewrite_depends_on_free_names", "bound_names_untouched", "frozen", "nontransportable_refused", "hrun_queries_prefix"]
 RULE = (
     "generated modules (harness/capture.py) whose lambdas mention closure cells, module globals, nested class "
     "constants, module attributes, enum members, data classes and one-line helpers, with binder names (lambda "
@@ -16,6 +16,13 @@ RULE = (
     "a captured name or helper; distinct = distinct lambda body"
 )
 EXPLANATION = (
+    "Semantic theorem rewriteCaptured_preserves / rewriteCaptured_lambda (Props/C04Sem.lean; induction over the expression "
+    "with the transfer principle of Lemmas/Agree.lean): for a snapshot of plain values and helpers left by name, in every "
+    "world and every environment that binds the captured names - where no parameter or comprehension variable hides them - "
+    "to the values of the snapshot, the rewritten lambda body evaluates (deferred execution) exactly like the original; so "
+    "the recorded lambda computes what the Python lambda computes with the values its free variables had at the call. "
+    "PARTIAL: class constants / module attributes / enum members (attribute table) and data-class constructors are outside "
+    "this theorem (oracle only). "
     "Theorems: rewrite_depends_on_free_names / bound_names_untouched (the recorded lambda depends on the scope only "
     "through names FREE in the lambda: parameters at any nesting level and comprehension variables are never "
     "replaced), frozen (over histories of bind/del/call: the lambda recorded by a call is computed from the scope "
